@@ -2,8 +2,8 @@
 from ..rules import failure, holds, flow, folds
 from .common import declare
 
-RULES = ['PROPAGATE', 'EMIT-AFTER-REL', 'NO-SWALLOWING-GATHER', 'ACC-CONTRACT', 'RERAISE', 'STATE-AFTER-CALL', 'STATE-FROM-RESULT', 'NO-REL-ON-FAIL', 'SYNC-TRANSPORT', 'EMIT-CONVERT']
-FLOORS = {'RERAISE': 2, 'STATE-AFTER-CALL': 5, 'STATE-FROM-RESULT': 1, 'NO-REL-ON-FAIL': 1, 'SYNC-TRANSPORT': 3, 'EMIT-CONVERT': 3}
+RULES = ['PROPAGATE', 'EMIT-AFTER-REL', 'NO-SWALLOWING-GATHER', 'ACC-CONTRACT', 'RERAISE', 'STATE-AFTER-CALL', 'STATE-FROM-RESULT', 'NO-REL-ON-FAIL', 'SYNC-TRANSPORT', 'EMIT-CONVERT', 'FINALLY-NO-JUMP', 'AWAITABLE-RESULT', 'WINDOW-FIFO']
+FLOORS = {'RERAISE': 2, 'STATE-AFTER-CALL': 5, 'STATE-FROM-RESULT': 1, 'NO-REL-ON-FAIL': 1, 'SYNC-TRANSPORT': 3, 'EMIT-CONVERT': 3, 'FINALLY-NO-JUMP': 2, 'AWAITABLE-RESULT': 1, 'WINDOW-FIFO': 6}
 
 META = {
     'level': "Static analysis of the synchronous delivery chain (_emit, emit, every plain update of core/sinks): no handler path "
@@ -11,7 +11,7 @@ META = {
              "every enumerated path), no write to node state precedes a user-callable invocation (STATE-AFTER-CALL) and "
              "accumulate.state is assigned only from the function's result (STATE-FROM-RESULT), _emit releases nothing on a failure "
              "edge (NO-REL-ON-FAIL), sync() transports the exception to the calling thread (SYNC-TRANSPORT) and emit() has no except "
-             "clause (EMIT-CONVERT). Necessary conditions of C16 for directly connected pipelines; buffered/asynchronous nodes are "
+             "clause (EMIT-CONVERT); no finally block on the chain returns / breaks, which would discard the exception in flight (FINALLY-NO-JUMP). Necessary conditions of C16 for directly connected pipelines; buffered/asynchronous nodes are "
              "outside the property's premise.",
     'note': "Trusted: exceptional edges = every call-out inside a try body; logging calls do not raise.",
     'technique': "static analysis: exceptional-edge path enumeration + effect ordering (RERAISE, STATE-AFTER-CALL, "
@@ -21,7 +21,7 @@ META = {
 
 def run(ctx, R):
     R.explanation = 'Exceptional edges of every function on the synchronous delivery chain.'
-    declare(R, {**failure.RULES, **holds.RULES, **flow.RULES, 'ACC-CONTRACT': folds.RULES['ACC-CONTRACT'] + ' (the state is committed before delivery, so a failure downstream does not roll the node back)'}, RULES, FLOORS)
+    declare(R, {**failure.RULES, **holds.RULES, **flow.RULES, 'WINDOW-FIFO': folds.RULES['WINDOW-FIFO'] + ' (a step that edits the stored history in place leaves a failed batch in the window: the node does not keep its previous state)', 'ACC-CONTRACT': folds.RULES['ACC-CONTRACT'] + ' (the state is committed before delivery, so a failure downstream does not roll the node back)'}, RULES, FLOORS)
     R.run(failure.check_reraise, ctx, R)
     R.run(failure.check_state_after_call, ctx, R)
     R.run(failure.check_no_swallowing_gather, ctx, R)
@@ -38,6 +38,11 @@ def run(ctx, R):
     # asynchronous consumer behind it
     R.run(flow.check_propagate, ctx, R, modules=('streamz.core', 'streamz.sinks'), note_modules=())
     R.run(flow.check_emit_convert, ctx, R)
+    R.run(failure.check_finally_no_jump, ctx, R, ('streamz.core', 'streamz.sinks', 'streamz.sources', 'streamz.dask'))
+    # 'carried by the awaitable of an asynchronous emit': a sink must hand back whatever awaitable its function returned
+    R.run(flow.check_awaitable_result, ctx, R, [c for c in ctx.model.nodes if c.module.name in ('streamz.core', 'streamz.sinks')])
+    # 'the node keeps its previous state': the window history stored in accumulate.state is copied, never edited in place
+    R.run(folds.check_window_fifo, ctx, R)
 
 
 META['level'] += ' No gather(..., return_exceptions=True) on the delivery chain (NO-SWALLOWING-GATHER); accumulate commits its state before delivering (ACC-CONTRACT).'
